@@ -535,7 +535,9 @@ def createPlan (inp : Input) : Except Err ((TypeArg ⊕ DType) × Nat × Input) 
     | [n] =>
       match getDtypeCls dt.elemClass with          -- `vals[0]`, then every element (same class)
       | .error e => .error e
-      | .ok d => .ok (.inr d, n, .ndarray dt shape data)
+      | .ok d =>
+        -- `hasattr(vals, "dtype") and vals.dtype != dtype`: refused before anything is created
+        if arrMatches dt d then .ok (.inr d, n, .ndarray dt shape data) else .error .typeError
     | _ :: _ :: _ => .error .valueError            -- `vals[0]` is itself an array
 
 /-- `Property.create_new`: a dataset of the initial shape (`(8,)` when no values are given), holding
@@ -544,8 +546,9 @@ def newProp (st : State) (name : Str) (d : DType) (n : Nat) : PropRec :=
   { name := name, id := st.next, dtype := d, vals := List.replicate (if n == 0 then 8 else n) d.fill }
 
 /-- `Section.create_property` without `copy_from` (`section.py:127-169`) and
-`Property.create_new` (`property.py:98-118`).  When the final `prop.values = vals` is refused the
-freshly created property stays behind (with the fill values of its initial shape). -/
+`Property.create_new` (`property.py:98-118`).  When the final `prop.values = vals` fails (integer
+overflow, embedded NUL — never a TypeError, see `createProperty_refused`) the freshly created
+property stays behind with the fill values of its initial shape. -/
 def createProperty (st : State) (name : Str) (inp : Input) : State × Except Err Unit :=
   if st.props.any (·.name == name) then (st, .error .duplicateName)
   else
